@@ -18,7 +18,12 @@
 //!   reconstruct-wrong-body       Block(b) but b's transactions are not the list the header root commits to /
 //!                                proposals or uncle hashes differ from the compact block
 //!   reconstruct-missing-imprecise  Missing(ixs, us) but ixs/us are not exactly the unavailable positions
-//!   reconstruct-panic
+//!   reconstruct-panic / verify-panic   `reconstruct_block` / `CompactBlockVerifier::verify` panics (caught on the calling
+//!                                thread; the driver's own expected-layout code cannot panic and the node is never dropped,
+//!                                so a panic is always reported, never a hang)
+//!
+//! Stream `codec`: the production `LengthDelimitedCodecWithCompress` — see c16_codec.rs.
+//! Stream `recv`: the real `Synchronizer::received` / `Relayer::received` — see c16_recv.rs.
 //!
 //! Stream `frame` (model: `Model/Frame.lean`):
 //!   dec v <hex>   -> err | raw <len> | snappy <len>    frames whose snappy body is known to be valid
@@ -27,6 +32,10 @@
 //!   cmp <len>     -> raw | snappy                        first byte of `compress(zeros(len))`
 use crate::common::*;
 use crate::node::*;
+#[path = "c16_codec.rs"]
+mod codec;
+#[path = "c16_recv.rs"]
+mod recv;
 use ckb_network::compress::{compress, decompress};
 use ckb_sync::{ReconstructionResult, Relayer, StatusCode, SyncShared, verif_compact_block_verify};
 use ckb_types::core::{BlockView, HeaderBuilder, TransactionBuilder, TransactionView, UncleBlockView};
@@ -156,7 +165,13 @@ impl World {
                 .proposals(packed::ProposalShortIdVec::new_builder().set(proposals.clone()).build())
                 .build(),
         };
-        let st = verif_compact_block_verify(&cb);
+        let st = match catch_unwind(AssertUnwindSafe(|| verif_compact_block_verify(&cb))) {
+            Ok(st) => st,
+            Err(e) => {
+                out.oracle_fail("verify-panic", &format!("{} panic={:?}", line, e.downcast_ref::<String>()));
+                return "panic".into();
+            }
+        };
         if !st.is_ok() {
             out.count("verify-err");
             return format!(
@@ -181,8 +196,15 @@ impl World {
         // expected layout, independent of the implementation (valid for verified compact blocks)
         let total = pre.len() + sids.len();
         let mut slots: Vec<Option<usize>> = vec![None; total]; // Some(tx) prefilled
+        // (a verifier that lets an impossible prefilled list through must show up as an oracle failure of the
+        // implementation, not as a panic of this driver: the expected layout is then simply not available)
+        let mut layout_ok = true;
         for (idx, t) in &pre {
-            slots[*idx] = Some(*t);
+            if *idx >= total || slots[*idx].is_some() {
+                layout_ok = false;
+            } else {
+                slots[*idx] = Some(*t);
+            }
         }
         let mut it = sids.iter();
         let mut expect_missing = vec![];
@@ -190,15 +212,17 @@ impl World {
         for (p, s) in slots.iter().enumerate() {
             match s {
                 Some(t) => positional.push(Some(*t)),
-                None => {
-                    let sid = *it.next().expect("layout");
-                    if recv.contains(&sid) {
-                        positional.push(Some(sid));
-                    } else {
-                        positional.push(None);
-                        expect_missing.push(p);
+                None => match it.next() {
+                    Some(sid) => {
+                        if recv.contains(sid) {
+                            positional.push(Some(*sid));
+                        } else {
+                            positional.push(None);
+                            expect_missing.push(p);
+                        }
                     }
-                }
+                    None => layout_ok = false,
+                },
             }
         }
         let expect_missing_uncles: Vec<usize> = (0..n_uncles).filter(|i| !upeer.contains(i)).collect();
@@ -229,7 +253,9 @@ impl World {
             }
             Ok(ReconstructionResult::Missing(txs, us)) => {
                 out.count("result-missing");
-                if txs != expect_missing || us != expect_missing_uncles {
+                if !layout_ok {
+                    out.oracle_fail("reconstruct-missing-imprecise", &format!("Missing({:?},{:?}) for a compact block whose prefilled indexes cannot be laid out (the verifier let it through): {}", txs, us, line));
+                } else if txs != expect_missing || us != expect_missing_uncles {
                     out.oracle_fail("reconstruct-missing-imprecise", &format!("Missing({:?},{:?}) expected ({:?},{:?}): {}", txs, us, expect_missing, expect_missing_uncles, line));
                 }
                 format!("missing txs={} uncles={}", list(&txs), list(&us))
@@ -476,6 +502,14 @@ pub fn run(opts: &Opts) {
             return;
         }
     }
+    if stream == "codec" {
+        codec::run(opts, out);
+        return;
+    }
+    if stream == "recv" {
+        recv::run(opts, out);
+        return;
+    }
     let mut rng = Rng::new(opts.seed ^ 0xcb16);
     if stream == "frame" {
         std::panic::set_hook(Box::new(|_| {}));
@@ -504,7 +538,9 @@ pub fn run(opts: &Opts) {
         out.finish("frame: one sweep of compress-threshold lengths, 8 MB-bound headers, malformed varints and random frames");
         return;
     }
-    let w = World::new(&opts.out);
+    // never dropped: dropping the node joins the chain-service threads, which do not stop on their own (a
+    // panic of this driver must end the process, not hang it)
+    let w = std::mem::ManuallyDrop::new(World::new(&opts.out));
     if let Some(p) = &opts.replay {
         for l in read_replay_ops(p) {
             if l.starts_with("case ") {
